@@ -5,7 +5,9 @@ without an enclosing {% provide %}, in both context modes; after the exception (
 module-level registries, the caller's Context layers and its render_context depth must be as before the render.
 
 Region of the known finding F-C06a (tagged, reported as KNOWN-FINDING): what is left behind is ONLY entries of
-component_context_cache and / or one render_context layer.  Anything else left behind is a violation."""
+component_context_cache and / or one render_context layer.  Region of F-C06b: the failure comes in a sibling AFTER a completed
+{% provide %} block whose consumers still wait for their deferred render, and what is left behind is only entries of the provide
+registries, of component_renderer_cache and of component_context_cache.  Anything else left behind is a violation."""
 import gc
 import itertools
 import os
@@ -123,6 +125,46 @@ def run_mode(args):
         for reg_ in (comp.component_context_cache, pc.component_renderer_cache, pc.child_component_attrs, pv.provide_cache, pv.provide_references):
             reg_.clear()
         pv.all_reference_ids.clear()
+    # failure in a SIBLING that comes after a completed {% provide %} block whose consumers wait for their deferred render
+    class Consumer(Component):
+        template = "[{{ v }}]"
+
+        def get_context_data(self):
+            return {"v": self.inject("k").a}
+    if "c06_consumer" in registry.all():
+        registry.unregister("c06_consumer")
+    registry.register("c06_consumer", Consumer)
+    if "c06_failing" in registry.all():
+        registry.unregister("c06_failing")
+    registry.register("c06_failing", make("get_context_data"))
+    for wrapped, consumers in itertools.product((False, True), (1, 2)):
+        body = "{% provide 'k' a=1 %}" + "{% component 'c06_consumer' / %}" * consumers + "{% endprovide %}{% component 'c06_failing' / %}"
+        if wrapped:
+            body = "{% component 'c06_holder' %}" + body + "{% endcomponent %}"
+        ctx = Context({"page": 1})
+        before = state(ctx)
+        try:
+            Template(LOAD + body).render(ctx)
+            raised = None
+        except Exception as e:      # noqa: BLE001
+            raised = str(e)[:80]
+        gc.collect()
+        after = state(ctx)
+        n += 1
+        left = {k: (before[k], after[k]) for k in before if before[k] != after[k]}
+        inp = {"mode": mode, "raise in": "a sibling after a completed provide block", "consumers in the block": consumers, "inside a component's fill": wrapped}
+        if raised is None:
+            fails.append({"input": inp, "clause": "the user's exception did not propagate", "observed": "render returned"})
+        elif left:
+            rec = {"input": inp, "clause": "state left behind after the render", "observed": {k: {"before": v[0], "after": v[1]} for k, v in left.items()}}
+            if set(left) <= {"component_context_cache", "render_context depth", "component_renderer_cache", "provide_cache", "provide_references", "all_reference_ids"}:
+                rec["known_finding"] = "F-C06b" if set(left) & {"provide_cache", "provide_references", "all_reference_ids", "component_renderer_cache"} else "F-C06a"
+                known.append(rec)
+            else:
+                fails.append(rec)
+        for reg_ in (comp.component_context_cache, pc.component_renderer_cache, pc.child_component_attrs, pv.provide_cache, pv.provide_references):
+            reg_.clear()
+        pv.all_reference_ids.clear()
     return {"n": n, "fails": fails, "known": known}
 
 
@@ -133,8 +175,11 @@ def run(repo, procs=2):
         res = pool.map(run_mode, [(repo, "django"), (repo, "isolated")])
     fails = [f for r in res for f in r["fails"]]
     known = [f for r in res for f in r["known"]]
-    return {"space": f"{len(SITES)} raise sites (incl. none) x {len(PLACES)} positions of the failing component x with / without an enclosing provide x 2 context modes",
-            "evaluations": sum(r["n"] for r in res), "failures": (fails + known)[:max(3, len(fails) + 1)], "known_finding_failures": len(known), "unexpected_failures": len(fails), "exhaustive": True}
+    firsts = []
+    for fid in ("F-C06a", "F-C06b"):
+        firsts += [f for f in known if f.get("known_finding") == fid][:1]
+    return {"space": f"{len(SITES)} raise sites (incl. none) x {len(PLACES)} positions of the failing component x with / without an enclosing provide x 2 context modes, plus a failure in a sibling after a completed provide block (1-2 consumers, at page level / inside a fill)",
+            "evaluations": sum(r["n"] for r in res), "failures": fails[:4] + firsts, "known_finding_failures": len(known), "unexpected_failures": len(fails), "exhaustive": True}
 
 
 if __name__ == "__main__":
